@@ -190,8 +190,9 @@ Definition related (fuel : nat) (sch : aschema) (frags : list fragdef) (cn T : s
   end.
 
 Record cls := { c_name : string; c_type : string; c_bases : list string;
-                c_frags : list string;      (* fragments used as bases of this class *)
-                c_direct : list string }.   (* fragments spread directly in its selection set *)
+                c_frags : list string;      (* fragments the resolver returned as bases of this class *)
+                c_direct : list string;     (* fragments spread directly in its selection set *)
+                c_bfrags : list string }.   (* those of c_frags actually listed as bases *)
 
 Record st := { st_public : list string; st_mix : list string; st_unp : list string;
                st_imports : list mixin_dir }.
@@ -208,14 +209,25 @@ Definition field_py_name (snake : bool) (n : string) : string :=
 (* _get_extra_bases_from_mixin_directives: one import and one extra base per directive *)
 Definition extra_bases (dirs : list mixin_dir) : list string := map snd dirs.
 
-Definition class_bases (mix : list string) (extra : list string) : list string :=
-  ((match mix with [] => [base_model] | _ => map pascal_s (sort_uniq mix) end) ++ extra)%list.
+(* _remove_inherited_fragments / _get_fragment_bases (fix 959c464).  g = the base graph: fragment ->
+   the fragments its OWN selection set resolves to as bases (resolve (fr_sel f) (fr_on f)); the bases a
+   fragment class inherits are everything reachable from its successors.  A fragment of `mix` that another
+   fragment of `mix` already inherits is not listed as a base again. *)
+Definition reach (g : graph) (b : string) : list string :=
+  match deps_opt g b with Some l => l | None => [] end.
+Definition frag_bases (g : graph) (f : string) : list string := flat_map (reach g) (succs g f).
+Definition inherited (g : graph) (mix : list string) : list string := flat_map (frag_bases g) mix.
+Definition reduced (g : graph) (mix : list string) : list string :=
+  filter (fun f => negb (mem f (inherited g mix))) mix.
+
+Definition class_bases (g : graph) (mix : list string) (extra : list string) : list string :=
+  ((match mix with [] => [base_model] | _ => map pascal_s (sort_uniq (reduced g mix)) end) ++ extra)%list.
 
 Definition direct_spreads (ss : list sel) : list string :=
   flat_map (fun s => match s with SSpread fn => [fn] | _ => [] end) ss.
 
 (* _parse_type_definition: class skeletons in generation order *)
-Fixpoint ptd (fuel : nat) (sch : aschema) (frags : list fragdef) (snake : bool)
+Fixpoint ptd (fuel : nat) (sch : aschema) (frags : list fragdef) (g : graph) (snake : bool)
              (cn tn : string) (ss : list sel) (extra : list string) (s : st) : option (list cls * st) :=
   match fuel with
   | 0 => None
@@ -227,15 +239,16 @@ Fixpoint ptd (fuel : nat) (sch : aschema) (frags : list fragdef) (snake : bool)
         | Some (fields, mix, unp') =>
             let s1 := {| st_public := (st_public s ++ [cn])%list; st_mix := (st_mix s ++ mix)%list;
                          st_unp := unp'; st_imports := st_imports s |} in
-            let me := {| c_name := cn; c_type := tn; c_bases := class_bases mix extra;
-                         c_frags := sort_uniq mix; c_direct := direct_spreads ss |} in
+            let me := {| c_name := cn; c_type := tn; c_bases := class_bases g mix extra;
+                         c_frags := sort_uniq mix; c_direct := direct_spreads ss;
+                         c_bfrags := sort_uniq (reduced g mix) |} in
             let go_related :=
               (fix gr (rel : list (string * string)) (sub : list sel) (ex : list string) (s : st)
                  : option (list cls * st) :=
                  match rel with
                  | [] => Some ([], s)
                  | (cn', tn') :: r =>
-                     match ptd f sch frags snake cn' tn' sub ex s with
+                     match ptd f sch frags g snake cn' tn' sub ex s with
                      | None => None
                      | Some (c1, s') =>
                          match gr r sub ex s' with
@@ -280,15 +293,15 @@ Fixpoint ptd (fuel : nat) (sch : aschema) (frags : list fragdef) (snake : bool)
   end.
 
 (* one ResultTypesGenerator *)
-Definition gen_op (fuel : nat) (sch : aschema) (frags : list fragdef) (snake : bool) (o : opdef)
+Definition gen_op (fuel : nat) (sch : aschema) (frags : list fragdef) (g : graph) (snake : bool) (o : opdef)
   : option (list cls * st) :=
-  ptd fuel sch frags snake (pascal_s (o_name o)) (o_root o) (o_sel o) (extra_bases (o_mixins o))
+  ptd fuel sch frags g snake (pascal_s (o_name o)) (o_root o) (o_sel o) (extra_bases (o_mixins o))
       {| st_public := []; st_mix := []; st_unp := []; st_imports := o_mixins o |}.
 
-Definition gen_frag (fuel : nat) (sch : aschema) (frags : list fragdef) (snake : bool) (fd : fragdef)
+Definition gen_frag (fuel : nat) (sch : aschema) (frags : list fragdef) (g : graph) (snake : bool) (fd : fragdef)
   : option (list cls * st) :=
   if unpack_fragment sch fd None then Some ([], st0)
-  else ptd fuel sch frags snake (pascal_s (fr_name fd)) (fr_on fd) (fr_sel fd) (extra_bases (fr_mixins fd))
+  else ptd fuel sch frags g snake (pascal_s (fr_name fd)) (fr_on fd) (fr_sel fd) (extra_bases (fr_mixins fd))
            {| st_public := []; st_mix := []; st_unp := []; st_imports := fr_mixins fd |}.
 
 (* ---- the fragments module ---- *)
@@ -377,10 +390,19 @@ Fixpoint all_some {X} (l : list (option X)) : option (list X) :=
   | None :: _ => None
   end.
 
+(* the base graph of the document: what _get_fragment_bases recomputes on demand *)
+Definition top_graph (fuel : nat) (sch : aschema) (frags : list fragdef) : option graph :=
+  all_some (map (fun fd => match resolve fuel sch frags (fr_sel fd) (fr_on fd) [] with
+                           | Some (_, mix, _) => Some (fr_name fd, mix)
+                           | None => None end) frags).
+
 Definition generate_package (fuel : nat) (sch : aschema) (frags : list fragdef) (ops : list opdef)
                             (snake : bool) (o : oracle) : option package :=
-  match all_some (map (gen_op fuel sch frags snake) ops),
-        all_some (map (gen_frag fuel sch frags snake) frags) with
+  match top_graph fuel sch frags with
+  | None => None
+  | Some g =>
+  match all_some (map (gen_op fuel sch frags g snake) ops),
+        all_some (map (gen_frag fuel sch frags g snake) frags) with
   | Some rops, Some rfrags =>
       let mix_all := flat_map (fun r => st_mix (snd r)) rops in
       let unp_all := flat_map (fun r => st_unp (snd r)) rops in
@@ -407,13 +429,16 @@ Definition generate_package (fuel : nat) (sch : aschema) (frags : list fragdef) 
           end
       end
   | _, _ => None
+  end
   end.
 
 (* A class statement `class X(A, B)` in which B is a subclass of A is rejected by Python's C3
    linearisation (TypeError at import).  hazard1: some generated class lists a fragment base before
-   another fragment base whose own class has it as a direct base. *)
+   another fragment base whose own class has it as a direct base.  (Former finding C08-MRO; after fix
+   959c464 it is a regression predicate: Properties/C08.v shows it false on the old witness and
+   C08_bases_no_ancestor proves the pattern impossible.) *)
 Definition top_frags (m : fragmod) (f : string) : list string :=
-  match lookup f (fm_classes m) with Some (c :: _) => c_frags c | _ => [] end.
+  match lookup f (fm_classes m) with Some (c :: _) => c_bfrags c | _ => [] end.
 Fixpoint before_derived (m : fragmod) (fs : list string) : bool :=
   match fs with
   | [] => false
@@ -423,8 +448,8 @@ Definition mro_hazard1 (p : package) : bool :=
   match pk_module p with
   | None => false
   | Some m =>
-      existsb (fun r => existsb (fun c => before_derived m (c_frags c)) (snd (fst r))) (pk_ops p)
-      || existsb (fun nc => existsb (fun c => before_derived m (c_frags c)) (snd nc)) (fm_classes m)
+      existsb (fun r => existsb (fun c => before_derived m (c_bfrags c)) (snd (fst r))) (pk_ops p)
+      || existsb (fun nc => existsb (fun c => before_derived m (c_bfrags c)) (snd nc)) (fm_classes m)
   end.
 
 (* ---- sexp interface ---- *)
@@ -491,7 +516,7 @@ Definition dTable (e : sexp) : option (list (string * list string)) :=
   dList (fun x => match x with L [A n; l] => option_map (pair n) (dStrs l) | _ => None end) e.
 
 Definition sCls (c : cls) : sexp :=
-  L [A (c_name c); A (c_type c); sStrs (c_bases c); sStrs (c_frags c); sStrs (c_direct c)].
+  L [A (c_name c); A (c_type c); sStrs (c_bases c); sStrs (c_frags c); sStrs (c_direct c); sStrs (c_bfrags c)].
 Definition sPairs (l : list mixin_dir) : sexp := L (map (fun p => L [A (fst p); A (snd p)]) l).
 Definition sTable (t : list (string * list string)) : sexp := L (map (fun p => L [A (fst p); sStrs (snd p)]) t).
 
